@@ -10,14 +10,16 @@ props_for() {
   case "$1" in
     *passes/used.rs|*passes/gc.rs) echo "C06 C07 C02 C12";;
     *local_function/emit.rs) echo "C03 C11 C20";;
-    *local_function/mod.rs) echo "C03 C05 C10";;
+    *local_function/mod.rs) echo "C03 C05 C10 C11 C15";;
     *local_function/context.rs) echo "C03 C20";;
     *module/data.rs|*module/elements.rs|*module/memories.rs|*module/globals.rs|*module/tables.rs|*module/imports.rs|*module/exports.rs) echo "C04 C19 C20 C02";;
-    *module/mod.rs) echo "C05 C08 C12 C13 C14";;
+    *module/mod.rs) echo "C05 C08 C12 C13 C14 C04";;
     *function_builder.rs) echo "C15 C18";;
-    *tombstone_arena.rs|*arena_set.rs|*module/types.rs) echo "C17";;
+    *tombstone_arena.rs|*arena_set.rs|*module/types.rs|*src/ty.rs) echo "C17 C04 C19";;
+    *module/producers.rs|*module/config.rs) echo "C14";;
+    *src/parse.rs|*src/emit.rs) echo "C19";;
     *debug/expression.rs) echo "C10";;
-    *functions/mod.rs) echo "C11 C18 C10";;
+    *functions/mod.rs) echo "C11 C18 C10 C19";;
     *ir/traversals.rs) echo "C16";;
     *ir/mod.rs) echo "C16 C03";;
     *) echo "C01";;
